@@ -108,6 +108,10 @@ pub struct Att {
     pub mask: u8,
     pub untrusted: u8,
     pub bad_sig: bool,
+    /// the last attestation of the list is repeated this many times (the same oracle's
+    /// attestation listed more than once must still count as one oracle)
+    #[serde(default)]
+    pub dup: u8,
 }
 
 #[derive(Clone, Debug, Serialize, Deserialize, PartialEq)]
@@ -146,9 +150,10 @@ pub struct Case {
 
 fn att_strat() -> impl Strategy<Value = Att> {
     prop_oneof![
-        6 => (0u8..3).prop_map(|u| Att { mask: 7, untrusted: u, bad_sig: false }),
-        4 => (0u8..8, 0u8..3).prop_map(|(m, u)| Att { mask: m, untrusted: u, bad_sig: false }),
-        1 => (0u8..8, 0u8..3).prop_map(|(m, u)| Att { mask: m, untrusted: u, bad_sig: true }),
+        6 => (0u8..3).prop_map(|u| Att { mask: 7, untrusted: u, bad_sig: false, dup: 0 }),
+        4 => (0u8..8, 0u8..3).prop_map(|(m, u)| Att { mask: m, untrusted: u, bad_sig: false, dup: 0 }),
+        1 => (0u8..8, 0u8..3).prop_map(|(m, u)| Att { mask: m, untrusted: u, bad_sig: true, dup: 0 }),
+        2 => (prop_oneof![Just(1u8), Just(2u8), Just(4u8), 0u8..8], 1u8..4).prop_map(|(m, d)| Att { mask: m, untrusted: 0, bad_sig: false, dup: d }),
     ]
 }
 
@@ -399,7 +404,14 @@ impl World {
                 out.push(self.att.sign(k, k, hash, height, fh));
             }
         }
-        // "at least half of the trusted oracles"
+        if a.dup > 0 {
+            if let Some(last) = out.last().cloned() {
+                for _ in 0..a.dup {
+                    out.push(last.clone());
+                }
+            }
+        }
+        // "at least half of the trusted oracles" (distinct oracles: `good` does not count repeats)
         if 2 * good < n {
             if proof_checked {
                 v.must.push("attestation");
@@ -687,7 +699,7 @@ impl C13 {
         }
         let atts = w.attest(att, a_hash, a_height, a_fh, proof_checked, &mut v);
         if v.must.contains(&"attestation") || (v.either.contains(&"bypass") && fine.is_empty()) {
-            fine.push(format!("att mask {:03b}/{} untrusted {} bad_sig {}", att.mask, w.att.trusted.len(), att.untrusted, att.bad_sig));
+            fine.push(format!("att mask {:03b}/{} untrusted {} bad_sig {} dup {}", att.mask, w.att.trusted.len(), att.untrusted, att.bad_sig, att.dup));
         }
 
         // proof and delivery
@@ -901,7 +913,7 @@ impl C13 {
         let atts = w.attest(att, a_hash, a_height, a_fh, proof_checked, &mut va);
         if !too_deep {
             if va.must.contains(&"attestation") {
-                fine.push(format!("att mask {:03b}/{} untrusted {} bad_sig {}", att.mask, w.att.trusted.len(), att.untrusted, att.bad_sig));
+                fine.push(format!("att mask {:03b}/{} untrusted {} bad_sig {} dup {}", att.mask, w.att.trusted.len(), att.untrusted, att.bad_sig, att.dup));
             }
             v.must.extend(va.must);
             v.either.extend(va.either);
@@ -1004,7 +1016,7 @@ impl C13 {
     }
 }
 
-const FULL_ATT: Att = Att { mask: 7, untrusted: 0, bad_sig: false };
+const FULL_ATT: Att = Att { mask: 7, untrusted: 0, bad_sig: false, dup: 0 };
 
 impl Prop for C13 {
     type Case = Case;
